@@ -639,6 +639,10 @@ fn gen_faults(rng: &mut Rng) -> FaultPlan {
     if rng.chance(1, 8) {
         p.truncate = Some(rng.below(1500));
     }
+    if rng.chance(1, 6) {
+        p.open_latency_ms = *rng.pick(&[5, 1500, 40_000]);
+        p.read_latency_ms = *rng.pick(&[1, 700, 10_000]);
+    }
     p
 }
 
